@@ -29,6 +29,7 @@ Op ==
             IF lim = 0 THEN Ev.admitted = Ev.k /\ live' = live + Ev.k /\ unl' = unl + Ev.k /\ UNCHANGED lim     \* no limit: everybody is admitted
             ELSE /\ Ev.admitted = Min(Ev.k, lim - (live - unl))      \* admitted iff a slot is free
                  /\ live' = live + Ev.admitted /\ UNCHANGED <<lim, unl>>
+       [] Ev.op = "blip" -> UNCHANGED <<lim, live, unl>>       \* a re-dialled session is the same admitted session
        [] Ev.op \in {"disc", "close"} -> live' = live - 1 /\ unl' = (IF unl > 0 THEN unl - 1 ELSE 0) /\ UNCHANGED lim   \* oldest first
   /\ UNCHANGED <<tokens, cap, once>> /\ Step
 Probe == Is("Probe") /\ Ev.count = live /\ Ev.working = live /\ (lim > 0 => live - unl <= lim) /\ Ev.rejectedopen = 0
